@@ -1179,7 +1179,13 @@ def _oauth_signature(
     base_elems.append(method.upper())
     base_elems.append(normalized_url)
     base_elems.append(
-        "&".join(f"{k}={_oauth_escape(str(v))}" for k, v in sorted(parameters.items()))
+        "&".join(
+            f"{k}={v}"
+            for k, v in sorted(
+                (_oauth_escape(str(k)), _oauth_escape(str(v)))
+                for k, v in parameters.items()
+            )
+        )
     )
     base_string = "&".join(_oauth_escape(e) for e in base_elems)
 
@@ -1210,7 +1216,13 @@ def _oauth10a_signature(
     base_elems.append(method.upper())
     base_elems.append(normalized_url)
     base_elems.append(
-        "&".join(f"{k}={_oauth_escape(str(v))}" for k, v in sorted(parameters.items()))
+        "&".join(
+            f"{k}={v}"
+            for k, v in sorted(
+                (_oauth_escape(str(k)), _oauth_escape(str(v)))
+                for k, v in parameters.items()
+            )
+        )
     )
 
     base_string = "&".join(_oauth_escape(e) for e in base_elems)
